@@ -215,7 +215,7 @@ def run_mp_vector(i, v):
         if f in ('lu4', 'lu6'):
             return 'lab%s.l%d' % ('+'.join(map(str, r['labels'])), r['p']['l'])
         if f in ('vpn4', 'vpn6'):
-            return 'lab%d.rd%d.l%d' % (r['label'], r['rd'][0], r['p']['l'])
+            return 'lab%s.rd%d.l%d' % ('+'.join(map(str, r['labels'])), r['rd'][0], r['p']['l'])
         if f == 'evpn':
             x = r[1]
             return 't%d.esi%s.ip%d' % (r[0], x['esi'][0] if 'esi' in x else '-', len(x.get('ip', [])))
